@@ -138,3 +138,35 @@ class CEngine:
     def close(self):
         if self.proc:
             return self.proc.close()
+
+
+class Pin:
+    """While a check runs against a scratch worktree (VERIF_REPO != /repo) it pins the generated Lean files of its own
+    translators, so that translate/regen_all.py runs of concurrent checks (which regenerate them from /repo) leave them alone;
+    on exit the pin is removed and the files are regenerated from /repo."""
+
+    def __init__(self, names):
+        self.names = names            # translator script base names, e.g. "c44_tables"
+        self.foreign = os.path.realpath(common.REPO) != "/repo"
+
+    def __enter__(self):
+        if self.foreign:
+            os.makedirs(common.CACHE, exist_ok=True)
+            os.environ["VERIF_PIN_OWNER"] = str(os.getpid())
+            for n in self.names:
+                with open(os.path.join(common.CACHE, n + ".pin"), "w") as f:
+                    f.write(str(os.getpid()))
+        return self
+
+    def __exit__(self, *a):
+        if self.foreign:
+            for n in self.names:
+                try:
+                    os.remove(os.path.join(common.CACHE, n + ".pin"))
+                except OSError:
+                    pass
+            os.environ.pop("VERIF_PIN_OWNER", None)
+            env = dict(os.environ)
+            env.pop("VERIF_REPO", None)
+            for n in self.names:
+                subprocess.run([sys.executable, os.path.join(common.VERIF, "translate", n + ".py")], capture_output=True, text=True, env=env)
